@@ -341,6 +341,8 @@ def rule_aliasclosed(ctx, prop: str) -> RuleResult:
                         # key must be the window's own name (possibly through a local)
                         if not (key == f"{subj}.name" or _local_is(case.body, key, f"{subj}.name")):
                             continue
+                        if isinstance(n.value, ast.Constant):
+                            continue  # a flag per window (is-a-window, seen, ...), not an alias map
                         n_sites += 1
                         res.instances += 1
                         res.nontrivial += 1
